@@ -78,6 +78,46 @@ def case(args):
     return args, what
 
 
+def diverse_plaintext(i: int, rnd: random.Random) -> bytes:
+    """large structured plaintexts whose DEFLATE streams differ in block count, block types and code-length tables
+    (lines sharing a prefix of length L followed by a random id: the longest match length follows L)"""
+    L = 3 + i % 256
+    prefix = bytes(rnd.choice(b"abcdefghijklmnopqrstuvwxyz/:._-0123456789") for _ in range(L))
+    lines = rnd.choice([1000, 2500, 3500, 3500])
+    out = bytearray()
+    for k in range(lines):
+        out += prefix + b"%08x" % rnd.getrandbits(32) + (b"\n" if i % 3 else b"\r\n")
+        if len(out) > 250000:
+            break
+    return bytes(out[:255000])
+
+
+def diversity(args):
+    """round trip of diverse large plaintexts through zip=DEF: joserfc -> joserfc and joserfc -> independent inflater"""
+    start, n, seed = args
+    from joserfc import jwe
+    jwk = K.get("oct128")
+    key = J.jkey(jwk)
+    bad = []
+    first_bytes = set()
+    for i in range(start, start + n):
+        rnd = random.Random(f"{seed}-div-{i}")
+        data = diverse_plaintext(i, rnd)
+        tok = jwe.encrypt_compact({"alg": "dir", "enc": "A128GCM", "zip": "DEF"}, data, key)
+        try:
+            _, pt = R.jwe_decrypt(tok, jwk)
+            if pt != data:
+                bad.append((i, len(data), "independent inflater returns other content"))
+        except Exception as e:  # noqa
+            bad.append((i, len(data), f"independent implementation cannot decrypt/inflate: {str(e)[:80]}"))
+        try:
+            if jwe.decrypt_compact(tok, key).plaintext != data:
+                bad.append((i, len(data), "round trip returns other content"))
+        except Exception as e:  # noqa
+            bad.append((i, len(data), f"round trip raised {type(e).__name__}"))
+    return bad, n
+
+
 def bomb_stream(total: int, pattern: bytes) -> bytes:
     c = zlib.compressobj(9, zlib.DEFLATED, -15)
     out = bytearray()
@@ -165,6 +205,8 @@ def run(ctx: Ctx) -> None:
         if thorough:
             bombs += [(512 << 20, b"\x00", e, s) for e in ("A128GCM", "A256CBC-HS512", "C20P") for s in ("compact", "general")]
         bres = pool.map(bomb, bombs, chunksize=1)
+        ndiv = 2048 if thorough else 512
+        dres = pool.map(diversity, [(i, ndiv // 16, ctx.seed) for i in range(0, ndiv, ndiv // 16)], chunksize=1)
     nwithin = 0
     for a, what in res:
         ctx.evaluations += 1
@@ -178,6 +220,11 @@ def run(ctx: Ctx) -> None:
         if what:
             ctx.violation(f"deflate:bomb expanded={info[0] >> 20}MiB {info[2]} {info[3]} -> {what.rsplit('-', 1)[0] if 'peak' in what else what}",
                           {"expanded": info[0], "compressed": info[1], "peak": info[4], "what": what})
+    for bad, n in dres:
+        ctx.evaluations += n
+        for i, ln, what in bad[:3]:
+            ctx.violation(f"deflate:diverse plaintext -> {what.split(':')[0]}", {"index": i, "length": ln, "what": what})
+    ctx.notes["diverse_large_plaintexts"] = ndiv
     # compression emits a raw DEFLATE stream (RFC 1951), no zlib header or checksum
     from joserfc import jwe
     for n in (0, 1, 100, 5000):
